@@ -72,7 +72,7 @@ REQUIRED = {"precedence.attribute": {"quick": 20000, "thorough": 1500000}, "bool
             "paths.relative_to_config_file": {"quick": 150, "thorough": 8000}, "list.order": {"quick": 400, "thorough": 20000},
             "userdata.define_parsing": {"quick": 2000, "thorough": 100000}, "userdata.cmdline_overrides_file": {"quick": 300, "thorough": 15000},
             "userdata.getters": {"quick": 1500, "thorough": 60000}, "userdata.namespace_view": {"quick": 500, "thorough": 20000}, "precedence.options_around_a_bare_color": {"quick": 200, "thorough": 8000}, "outputs.paired_with_formatters_in_order": {"quick": 300, "thorough": 10000}, "couplings.documented": {"quick": 100, "thorough": 4000}, "embedded.explicit_command_line_is_the_command_line": {"quick": 300, "thorough": 8000}}
-REQUIRED_SEEN = {"embedded_args": ["none_means_sys_argv", "empty_list", "empty_str", "empty_tuple", "given"], "outfile_list_shape": ["stdout_placeholder_before_a_file"], "bare_color_position": ["first", "middle", "last"], "namespace_view_made": ["before_the_data", "after_the_data"],
+REQUIRED_SEEN = {"stage_decided_by": ["cmdline", "file", "environment", "default", "cmdline_with_BEHAVE_STAGE_set", "file_with_BEHAVE_STAGE_set"], "embedded_args": ["none_means_sys_argv", "empty_list", "empty_str", "empty_tuple", "given"], "outfile_list_shape": ["stdout_placeholder_before_a_file"], "bare_color_position": ["first", "middle", "last"], "namespace_view_made": ["before_the_data", "after_the_data"],
                  "define_value_shape": ["different_quote_characters_at_the_ends"], "namespace_name_shape": ["name_starts_with_namespace_text"], "config_file_kind": ["behave.ini", ".behaverc", "setup.cfg", "tox.ini", "pyproject.toml"],
                  "config_file_place": ["cwd", "home"], "source_deciding": ["cmdline", "file", "default"]}
 EXHAUSTIVE = True
@@ -271,13 +271,28 @@ def random_case(mon, sc, rng, sample=False):
     if rng.random() < 0.2:
         cmd_paths = rng.sample(["cmd/features", "x.feature", "a/b/c.feature:12"], rng.randint(1, 2))
         args.extend(cmd_paths)
-    config, err = make_config(args)
-    case = {"files": [(p, n, {k: (v[0] if isinstance(v, tuple) else v) for k, v in vals.items()}) for p, n, vals in files], "args": args}
+    # the process environment: BEHAVE_STAGE is the fallback for a stage that neither the command line nor a file names
+    env_stage = rng.choice(["ci", "nightly"]) if rng.random() < 0.3 else None
+    if env_stage:
+        os.environ["BEHAVE_STAGE"] = env_stage
+    try:
+        config, err = make_config(args)
+    finally:
+        os.environ.pop("BEHAVE_STAGE", None)
+    case = {"files": [(p, n, {k: (v[0] if isinstance(v, tuple) else v) for k, v in vals.items()}) for p, n, vals in files], "args": args,
+            "environment": {"BEHAVE_STAGE": env_stage} if env_stage else {}}
     mon.case(case, bool(files) and bool(args))
     if config is None:
         mon.check("precedence.constructs", False, dict(case=case, error=err))
         return
     W = lambda **kw: dict(case=case, **kw)
+    eff_stage, stage_src = (cmd["stage"], "cmdline") if "stage" in cmd else ((file_value["stage"][1], "file") if "stage" in file_value
+                                                                             else ((env_stage, "environment") if env_stage else (None, "default")))
+    mon.seen("stage_decided_by", stage_src + ("_with_BEHAVE_STAGE_set" if env_stage and stage_src in ("cmdline", "file") else ""))
+    mon.check("precedence.stage_selects_steps_dir_and_environment_file",
+              config.steps_dir == ("%s_steps" % eff_stage if eff_stage else "steps") and
+              config.environment_file == ("%s_environment.py" % eff_stage if eff_stage else "environment.py"),
+              lambda: W(stage=eff_stage, decided_by=stage_src, steps_dir=config.steps_dir, environment_file=config.environment_file))
     junit_on = cmd.get("junit", file_value.get("junit", False))
     for dest, (default, pos, neg) in BOOLS.items():
         if dest in cmd:
@@ -299,6 +314,8 @@ def random_case(mon, sc, rng, sample=False):
             want, src = file_value[dest][1], "file"
         else:
             want, src = default, "default"
+            if dest == "stage" and env_stage:
+                want, src = env_stage, "environment"
         got = getattr(config, dest)
         mon.check("precedence.attribute", got == want, lambda: W(option=dest, got=got, want=want, decided_by=src))
     for dest, (default, cands) in FILE_ONLY.items():
